@@ -75,3 +75,20 @@ Print Assumptions c13_migrate_keeps_ledger.
    (D31). In the source as it is no value handed to getItem does (regenerated fact). *)
 Theorem c13_decode_targets_are_fresh : badger_stale_decode_targets = [].
 Proof. reflexivity. Qed.
+
+(* why the fact above is what matters (Retry.v: decoding INTO a value keeps the fields that the
+   stored record does not have): with a fresh value per attempt a retried keep-alive writes the
+   keep-alive of what the store holds now, whatever the aborted attempt had read; with the value
+   kept across attempts a host that re-registered as a light client in between is written back as a
+   host at its old address (D31) *)
+From VP Require Import Retry.
+Theorem c13_fresh_target_reads_the_store : forall now blk s1 s2,
+  retried_keepalive true now blk s1 s2 = keepalive now blk s2.
+Proof. exact fresh_target_reads_the_store. Qed.
+Print Assumptions c13_fresh_target_reads_the_store.
+Theorem c13_stale_target_refuted :
+  let host := {| r_host := true; r_uri := 7; r_kind := 1; r_payout := 9; r_seen := 100; r_block := 5 |} in
+  let client := {| r_host := false; r_uri := 0; r_kind := 0; r_payout := 0; r_seen := 200; r_block := 0 |} in
+  retried_keepalive false 300 6 host client = {| r_host := true; r_uri := 7; r_kind := 1; r_payout := 9; r_seen := 300; r_block := 6 |} /\
+  retried_keepalive true 300 6 host client = {| r_host := false; r_uri := 0; r_kind := 0; r_payout := 0; r_seen := 300; r_block := 6 |}.
+Proof. exact stale_target_restores_old_fields. Qed.
